@@ -285,17 +285,17 @@ func (fr *frame) slice(x, lo, hi, max value) value {
 
 	l := int64(0)
 	if lo != nil {
-		l = fr.concretizeInt(lo, 0, int64(Cap), "slice low bound")
+		l = fr.sliceBound(lo, int64(Cap))
 	}
 
 	h := int64(Len)
 	if hi != nil {
-		h = fr.concretizeInt(hi, 0, int64(Cap), "slice high bound")
+		h = fr.sliceBound(hi, int64(Cap))
 	}
 
 	m := int64(Cap)
 	if max != nil {
-		m = fr.concretizeInt(max, 0, int64(Cap), "slice max bound")
+		m = fr.sliceBound(max, int64(Cap))
 	}
 	if _, isStr := x.(string); isStr || isStrSym(x) {
 		if l < 0 || h < l || h > int64(Len) {
@@ -320,6 +320,26 @@ func (fr *frame) slice(x, lo, hi, max value) value {
 }
 
 func isStrSym(x value) bool { _, ok := x.(*symStr); return ok }
+
+// sliceBound concretises a slice bound; a symbolic bound outside [0,max]
+// is the Go run-time panic, a symbolic bound inside is enumerated.
+func (fr *frame) sliceBound(v value, max int64) int64 {
+	s, ok := v.(*SymVal)
+	if !ok {
+		return asInt64(v)
+	}
+	w := s.t.w
+	var in Term
+	if kindSigned(s.k) {
+		in = tAnd(app(0, "bvsge", s.t, bvLit(0, w)), app(0, "bvsle", s.t, bvLit(uint64(max), w)))
+	} else {
+		in = app(0, "bvule", s.t, bvLit(uint64(max), w))
+	}
+	if !fr.i.ps.branch(in, fr.site()+"#slicebound") {
+		panic(fr.i.rtPanic(fmt.Sprintf("slice bounds out of range [symbolic] with capacity %d", max)))
+	}
+	return fr.concretizeInt(v, 0, max, "slice bound")
+}
 
 // index returns x[idx] for arrays and strings.
 func (fr *frame) index(x, idx value) value {
